@@ -21,7 +21,7 @@ RULE = (
 )
 BOUNDS = {
     "quick": "required lists up to length 2 over {a,b,c}; single patterns: all 207 trees up to 4 nodes; pattern pairs: 400 seeded pairs of trees up to 3 nodes; 300 seeded two-branch alternations of symbol chains; depth_limit 1..3; real combinations with up to 3 pictures",
-    "thorough": "required lists up to length 3; all trees up to 5 nodes singly; 4000 seeded pairs of trees up to 4 nodes; 3000 two-branch alternations; real combinations with up to 4 pictures",
+    "thorough": "required lists up to length 3; all 207 trees up to 4 nodes singly; 2000 seeded pairs of trees up to 4 nodes; 2000 two-branch alternations; real combinations with up to 4 pictures",
 }
 OUTSIDE = "longer lists, larger pattern sets, depth limits above 3"
 ASSUMPTIONS = ["reference: lib/regex_ref.py; 'at most depth_limit consecutive insertions' is the permitted-insertions rule"]
@@ -53,10 +53,10 @@ def _lists(maxlen):
 def tasks(tier, seed):
     rnd = random.Random(seed)
     quick = tier == "quick"
-    singles = R.enumerate_asts(4 if quick else 5)
+    singles = R.enumerate_asts(4)
     small = R.enumerate_asts(3 if quick else 4)
     pairs = []
-    want = 400 if quick else 4000
+    want = 400 if quick else 2000
     while len(pairs) < want:
         pairs.append((rnd.choice(small), rnd.choice(small)))
     # two-branch patterns (alternation of symbol chains): the smallest shape where consuming a required symbol
@@ -72,7 +72,7 @@ def tasks(tier, seed):
     chains += [chain([("sym", "a")] + [("sym", "b")] * k) for k in (3, 4, 5)]
     two = [("alt", chain([("sym", "a"), ("sym", "b"), ("sym", "b")]), chain([("sym", "c"), ("sym", "a")])),
            ("alt", chain([("sym", "a")] + [("sym", "b")] * 4), chain([("sym", "c"), ("sym", "a")]))]
-    for _ in range(300 if quick else 3000):
+    for _ in range(300 if quick else 2000):
         two.append(("alt", rnd.choice(chains), rnd.choice(chains)))
     sets = [(t,) for t in singles] + pairs + [(t,) for t in two]
     lists = _lists(2 if quick else 3)
